@@ -8,8 +8,11 @@ import (
 	"gverif/core"
 	"gverif/engine/args"
 	"gverif/engine/config"
+	"gverif/engine/goproto"
+	"gverif/engine/loopidx"
 	"gverif/engine/okflow"
 	"gverif/engine/overlap"
+	"gverif/engine/pool"
 	"gverif/engine/stride"
 	"gverif/engine/twin"
 )
@@ -102,6 +105,9 @@ func init() {
 			rn := stride.Run(core.Config{Tags: "noasm"}, core.Pkgs("./internal/asm/f64", "./internal/asm/f32", "./internal/asm/c128", "./internal/asm/c64"))
 			rn.Floor("index_sites", 100)
 			res.Merge(rn)
+			li := loopidx.Run(def, core.Pkgs(blasPkgs...))
+			li.Floor("counting_loops_with_element_stores", 300)
+			res.Merge(li)
 			t := twin.Run(twin.Which{Generated: true, Prefixes: []string{"blas/"}})
 			t.Floor("generated_file_pairs", 17)
 			t.Floor("twin_declaration_pairs", 140)
@@ -132,6 +138,9 @@ func lapackProp(self, other, what string) *property {
 			a.Floor("argument_checks", 350)
 			a.Floor("query_mode_effects", 10)
 			res.Merge(a)
+			li := loopidx.Run(def, sc)
+			li.Floor("counting_loops_with_element_stores", 100)
+			res.Merge(li)
 			ok := okflow.Run(def, core.Scope{Patterns: []string{"./lapack/gonum"}, Files: sc.Files})
 			ok.Floor("status_call_sites", 10)
 			res.Merge(ok)
@@ -174,6 +183,7 @@ func init() {
 			r.Floor("index_sites", 200)
 			r.Floor("literal_pairs", 40)
 			res.Merge(r)
+			res.Merge(loopidx.Run(def, core.Pkgs("./mat")))
 			t := twin.Run(twin.Which{Bounds: true, BoundsFamilies: []string{"mat-index"}, ReuseAs: true})
 			t.Floor("bounds_guard_sequences", 15)
 			t.Floor("reuseAs_sync_pairs", 5)
@@ -262,6 +272,45 @@ func init() {
 	}
 }
 
+var concurrentPkgs = []string{"./blas/gonum", "./integrate/quad", "./diff/fd", "./optimize", "./mat", "./stat/distmat", "./stat/card", "./unit"}
+
+func init() {
+	properties["C09"] = &property{
+		explanation: "Decides the synchronisation structure behind C09 at all 21 go statements of non-test code and for all pooled workspaces of mat: GOPROTO.capture — every variable of a spawning function that a goroutine assigns is written under a mutex that covers every other concurrent access, or by a single goroutine whose deferred WaitGroup.Done every other access Wait()s for on all paths; GOPROTO.wg — each WaitGroup.Add is matched by goroutines that defer Done, Add(n) equals the spawning loop's trip count (including gemm's blocks(m,bs)*blocks(n,bs) tiling), and Wait is present; GOPROTO.close — every ranged/quit channel is closed by exactly one site, reached on every exit when unconditional ('leaves no goroutines behind'); GOPROTO.sibling — serial and concurrent implementations dispatched from one call site read the same settings (found and repaired: OriginKnown ignored by three concurrent fd paths, one user-function call too many); POOL.once/.uaf/.escape — no pooled workspace is put twice on a path, used after its put, or retained in a field, package variable, goroutine or exported result. Does NOT decide tile disjointness, bit-identical reduction order, callback counts in general, or races through aliased matrix views; nothing is executed and no race detector is used.",
+		assumptions: commonAssumptions,
+		run: func(tier string, res *core.Result) {
+			g := goproto.Run(def, core.Pkgs(concurrentPkgs...))
+			g.Floor("go_statements", 18)
+			g.Floor("shared_writes_in_goroutines", 4)
+			g.Floor("wait_groups", 8)
+			g.Floor("channels_with_close_protocol", 10)
+			g.Floor("serial_concurrent_sibling_pairs", 4)
+			res.Merge(g)
+			p := pool.Run(def)
+			p.Floor("workspace_tokens", 60)
+			p.Floor("put_sites", 60)
+			res.Merge(p)
+			if tier == "thorough" {
+				res.Merge(goproto.Run(def, core.Pkgs("./...")))
+				res.Merge(pool.Run(core.Config{Tags: "safe"}))
+				res.Merge(goproto.Run(core.Config{Tags: "noasm"}, core.Pkgs(concurrentPkgs...)))
+			}
+		},
+	}
+	properties["C19"] = &property{
+		explanation: "Decides the termination-protocol clause of C19 ('Minimize terminates for every method ... and concurrency level') on the method side, for all 9 optimize Method.Run implementations through their helpers (localOptimizer.run/finish/finishMethodDone, summaries computed, not listed): GOPROTO.run — on every path to a normal exit the result channel is ranged to closure before close(operation) (the documented obligation 'closing of results happens before the closing of operations'), operation is closed on every path and never twice; GOPROTO.wg/.close/.capture on optimize.minimize's own goroutines. A new early return that skips the drain is the realistic way to hang Minimize and is invisible to tests that never take that path. Does NOT decide counters, status coherence, convergence, line-search conditions or the simplex solver.",
+		assumptions: commonAssumptions,
+		run: func(tier string, res *core.Result) {
+			r := goproto.RunProtocol(def)
+			r.Floor("run_methods", 9)
+			res.Merge(r)
+			g := goproto.Run(def, core.Pkgs("./optimize"))
+			g.Floor("go_statements", 3)
+			res.Merge(g)
+		},
+	}
+}
+
 func dump(argv []string) {
 	if len(argv) == 0 {
 		return
@@ -285,6 +334,14 @@ func dump(argv []string) {
 		res = okflow.Run(def, core.Pkgs(argv[1:]...))
 	case "overlap":
 		res = overlap.Run(def)
+	case "pool":
+		res = pool.Run(def)
+	case "loopidx":
+		res = loopidx.Run(def, core.Pkgs(argv[1:]...))
+	case "goproto":
+		res = goproto.Run(def, core.Pkgs(argv[1:]...))
+	case "goprotorun":
+		res = goproto.RunProtocol(def)
 	case "twin":
 		res = twin.Run(twin.Which{Generated: true, Bounds: true, ReuseAs: true, R3: true})
 	case "args":
